@@ -32,7 +32,7 @@
 //!  9 outer-join-filter-on-nullable-side-join-key (physical FilterPushdown)   10 filter-below-empty-grouping-set
 //! 11 pred-subquery-correlated-global-aggregate (count bug for EXISTS/IN/ANY/ALL)   12 union-constant-columns-order-by
 //! 13 window-aggregate-of-literal    14 sum-of-constant-derived-column    15 union-empty-first-branch-names (outcome-keyed)
-//! 16 nullability-mismatch:bool-test and :case-then-in-when (outcome-keyed Internal errors)
+//! 16 nullability-mismatch:bool-test, :case-then-in-when and :correlated-scalar-subquery (outcome-keyed Internal errors)
 //! 17 window-partition-by-not-ordered (outcome-keyed Execution error)   18 nested-offset-without-limit (physical LimitPushdown)
 //! Not pinned as findings: decorrelation rules failing with `Schema error: No field named …` on unsupported
 //! correlated shapes are treated as the engine's (poorly worded) rejection → discards labelled `decorrelation-failed`.
@@ -211,6 +211,18 @@ pub fn window_of_literal(q: &Query) -> bool {
     refsql::visit_exprs(q, &mut |e| {
         if let Expr::Win(w) = e {
             if matches!(w.args.first(), Some(Expr::Lit(_)) | Some(Expr::Null(_))) && !matches!(w.f, refsql::WinFunc::Ntile) {
+                found = true
+            }
+        }
+    });
+    found
+}
+
+pub fn has_correlated_scalar(q: &Query) -> bool {
+    let mut found = false;
+    refsql::visit_exprs(q, &mut |e| {
+        if let Expr::Scalar(sq) = e {
+            if refsql::has_outer_refs(sq) {
                 found = true
             }
         }
@@ -602,9 +614,24 @@ fn for_each_not_in<'a>(q: &'a Query, f: &mut dyn FnMut(&'a Expr, &'a Query)) {
 /// a negated IN-subquery whose left side mentions no column (known finding `not-in-subquery-constant-lhs`)
 pub fn not_in_constant_lhs(q: &Query) -> bool {
     let mut found = false;
+    // constant NULL sub-expressions make arithmetic fold to a constant (`id / nullif(0, 0)`)
+    fn const_null(e: &Expr) -> bool {
+        match e {
+            Expr::Null(_) => true,
+            Expr::NullIf(a, b) => matches!((&**a, &**b), (Expr::Lit(x), Expr::Lit(y)) if x == y),
+            Expr::Bin(refsql::BinOp::Add | refsql::BinOp::Sub | refsql::BinOp::Mul | refsql::BinOp::Div | refsql::BinOp::Mod | refsql::BinOp::Concat, l, r) => const_null(l) || const_null(r),
+            Expr::Neg(x) | Expr::Cast(x, _) => const_null(x),
+            _ => false,
+        }
+    }
     for_each_not_in(q, &mut |e, _| {
-        // anything but a bare column may be folded to a constant by the simplifier
-        if !matches!(e, Expr::Col { .. }) {
+        let mut has_col = false;
+        refsql::eval::walk_expr_shallow(e, &mut |y| {
+            if matches!(y, Expr::Col { .. } | Expr::Scalar(_)) {
+                has_col = true
+            }
+        });
+        if !has_col || const_null(e) {
             found = true;
         }
     });
@@ -850,8 +877,8 @@ impl Property for C01 {
             return Some(sig);
         }
         // outcome-keyed signatures: construct present AND the engine answers with exactly that internal error
-        let (bt, cw, nu, wi, ns) = (has_bool_test(q), case_then_in_when(q), has_nested_union(q), has_window(q), false);
-        if bt || cw || nu || wi || ns {
+        let (bt, cw, nu, wi, cs) = (has_bool_test(q), case_then_in_when(q), has_nested_union(q), has_window(q), has_correlated_scalar(q));
+        if bt || cw || nu || wi || cs {
             let out = engine_run(case, &refsql::to_sql(q));
             if nullability_mismatch(&out) {
                 if bt {
@@ -859,6 +886,9 @@ impl Property for C01 {
                 }
                 if cw {
                     return Some("nullability-mismatch:case-then-in-when".into());
+                }
+                if cs {
+                    return Some("nullability-mismatch:correlated-scalar-subquery".into());
                 }
             }
             if wi && matches!(&out.outcome, DfOutcome::Error(e) if e.class == ErrClass::Execution && e.message.contains("Expects PARTITION BY expression to be ordered")) {
